@@ -5,13 +5,18 @@ id="$1"; crate="$2"; demo="$3"; shift 3
 W=/tmp/mut_$id; O=/tmp/mut_${id}_out
 export CARGO_NET_OFFLINE=true CARGO_TARGET_DIR=${MUT_TARGET:-$W/target}
 cd $W || exit 2
+# with a shared target dir another worktree of the same crate may have built more recently: force our sources to be newer
+fresh() { git ls-files -m -o --exclude-standard | grep "\.rs$" | xargs -r touch; }
 echo "== worktree status"; git status --short | head
 echo "== existing tests with the change (excluding the demo)"
+fresh
 cargo test --offline -p "$crate" "$@" -- --skip __nothing__ 2>&1 | grep -E "^test result|FAILED|error\[" | head -20
 echo "== demo with the change (expect FAIL)"
+fresh
 cargo test --offline -p "$crate" --test "$demo" 2>&1 | grep -E "^test result" | head -3
 git apply -R "$O/patch.diff" || { echo "cannot reverse patch"; exit 2; }
 echo "== demo without the change (expect ok)"
+fresh; git diff --name-only HEAD | xargs -r touch; touch $(git apply --numstat "$O/patch.diff" | awk '{print $3}')
 cargo test --offline -p "$crate" --test "$demo" 2>&1 | grep -E "^test result" | head -3
 git apply "$O/patch.diff"
 echo "== done"
